@@ -83,7 +83,7 @@ func flagSet(name string) bool {
 func runProp(spec *PropSpec, tier, mutant string, noMut bool) (code int) {
 	start := time.Now()
 	c := &Ctx{Prop: spec.ID, Tier: tier, Rules: map[string]*RuleStat{}, FuncsSeen: map[string]bool{}, Extra: map[string]interface{}{}}
-	c.Explanation = spec.Explanation + round8Explanations[spec.ID] + round9Explanations[spec.ID] + round10Explanations[spec.ID] + round11bExplanations[spec.ID] + round12Explanations[spec.ID] + round13Explanations[spec.ID] + round14Explanations[spec.ID] + round15Explanations[spec.ID] + genericExplanation
+	c.Explanation = spec.Explanation + round8Explanations[spec.ID] + round9Explanations[spec.ID] + round10Explanations[spec.ID] + round11bExplanations[spec.ID] + round12Explanations[spec.ID] + round13Explanations[spec.ID] + round14Explanations[spec.ID] + round15Explanations[spec.ID] + round16Explanations[spec.ID] + genericExplanation
 	var runErr error
 	var mut *MutantSummary
 	defer func() {
@@ -154,6 +154,7 @@ func runProp(spec *PropSpec, tier, mutant string, noMut bool) (code int) {
 		runRound13(c, spec)
 		runRound14(c, spec)
 		runRound15(c, spec)
+		runRound16(c, spec)
 		if c.Whole && spec.Thorough != nil {
 			spec.Thorough(c)
 		}
